@@ -580,7 +580,7 @@ Notes:
         elif type(_dist) not in dist.__class__.mro():
             dist = Distribution(dist) #XXX: or throw error?
         for i in range(self.nPop): #FIXME: accept a list of Distributions
-            self.population[i] = dist(self.nDim)
+            self.population[i] = asarray(dist(self.nDim), dtype='float64')
         return
 
     def enable_signal_handler(self):#, callback='*'):
